@@ -3,6 +3,7 @@ import TsRsVerif.Lemmas.AbsLemmas
 import TsRsVerif.Lemmas.SpellingLemmas
 import TsRsVerif.Lemmas.HistoryWorld
 import TsRsVerif.Lemmas.HistoryMulti
+import TsRsVerif.Lemmas.HistoryTo
 /-!
 # C06 — export results depend only on what was exported, not how or in what order
 
@@ -107,6 +108,47 @@ example : SlotsOK exFs exSlots := by
 #guard (runOps exSlots { fs := exFs, reg := [] } [(0, exB), (1, exO), (0, exA)]).2
 #guard ((runOps exSlots { fs := exFs, reg := [] } [(0, exB), (1, exO), (0, exA)]).1.fs.lookup ["w".toList, "out".toList, "shared.ts".toList])
   == ((runOps exSlots { fs := exFs, reg := [] } [(0, exA), (0, exB), (1, exO)]).1.fs.lookup ["w".toList, "out".toList, "shared.ts".toList])
+
+/-- **histories through the entry point `export_to`, whatever the spelling and whatever directories exist**: in a process that has
+not written the file yet, two sequences of `export_to` calls whose generated texts are permutations of one another — each call with
+its OWN spelling of the path (relative, absolute, `./`, `..` segments: anything `path::absolute` normalises to `path`) — both return
+`Ok` at every step and end in the SAME file system byte for byte. The first call creates the missing parent directories
+(`create_dir_all`, result `fsD`); later calls find them (`create_dir_all` is then the identity, also after the file exists:
+`Fs.createDirAll_idem`). The only thing assumed about the target is that a file can be created there once its parents exist
+(it is not a directory). -/
+theorem C06_export_to_histories (w : World) (path par : Str) (fsD : Fs) (s₁ s₂ : List (Str × GenT))
+    (hperm : (s₁.map (·.2)).Perm (s₂.map (·.2))) (hne : s₁ ≠ [])
+    (habs₁ : ∀ s ∈ s₁, Path.absolute (cwdStr w.fs) s.1 = .ok path) (habs₂ : ∀ s ∈ s₂, Path.absolute (cwdStr w.fs) s.1 = .ok path)
+    (hpar : Path.parent path = some par) (hd : w.fs.createDirAll par = some fsD)
+    (hok : ∀ x ∈ s₁.map (·.2), GenOK x) (hnd : ((s₁.map (·.2)).map (·.name)).Nodup) (hndI : ((s₁.map (·.2)).map (·.ident)).Nodup)
+    (hp : w.poisoned = false) (hreg : regGet w.reg (regKey path) = none)
+    (hc : ∃ text, (fsD.fileCreate path text).isSome) :
+    ∃ w₁ w₂, runAllTo w s₁ = (w₁, true) ∧ runAllTo w s₂ = (w₂, true) ∧ w₁.fs = w₂.fs :=
+  historyTo_order_independent w path par fsD s₁ s₂ hperm hne habs₁ habs₂ hpar hd hok hnd hndI hp hreg hc
+
+/-- … and what that file system is: the directories `create_dir_all` made, plus exactly the canonical file of the exported texts -/
+theorem C06_export_to_history_canonical (w : World) (path par : Str) (fsD : Fs) (p0 : Str) (g : GenT) (rest : List (Str × GenT))
+    (habs : ∀ s ∈ (p0, g) :: rest, Path.absolute (cwdStr w.fs) s.1 = .ok path) (hpar : Path.parent path = some par)
+    (hd : w.fs.createDirAll par = some fsD)
+    (hok : ∀ x ∈ g :: rest.map (·.2), GenOK x) (hnd : ((g :: rest.map (·.2)).map (·.name)).Nodup)
+    (hndI : ((g :: rest.map (·.2)).map (·.ident)).Nodup)
+    (hp : w.poisoned = false) (hreg : regGet w.reg (regKey path) = none)
+    (hc : (fsD.fileCreate path (genText g)).isSome) :
+    ∃ w' loc, runAllTo w ((p0, g) :: rest) = (w', true) ∧ fsD.resolve path = some loc ∧
+      w'.fs = fsD.set loc (.file (fileText (canonSt (g :: rest.map (·.2))))) := by
+  obtain ⟨w', loc, h, _, _, hr, _, hfs, _⟩ := historyTo_canonical w path par fsD p0 g rest habs hpar hd hok hnd hndI hp hreg hc
+  exact ⟨w', loc, h, hr, hfs⟩
+
+/-! non-vacuity: no `out/deep` directory yet; three spellings of one file -/
+def exFs0 : Fs := { nodes := [(["w".toList], .dir)], cwd := ["w".toList] }
+def exSp1 : List (Str × GenT) := [("out/deep/shared.ts".toList, exB), ("/w/out/./deep/shared.ts".toList, exA)]
+def exSp2 : List (Str × GenT) := [("./out/x/../deep/shared.ts".toList, exA), ("out/deep/shared.ts".toList, exB)]
+example : (∀ s ∈ exSp1 ++ exSp2, Path.absolute (cwdStr exFs0) s.1 = .ok "/w/out/deep/shared.ts".toList)
+    ∧ Path.parent "/w/out/deep/shared.ts".toList = some "/w/out/deep".toList
+    ∧ (exFs0.createDirAll "/w/out/deep".toList).isSome := by decide +kernel
+#guard (runAllTo { fs := exFs0, reg := [] } exSp1).2 && (runAllTo { fs := exFs0, reg := [] } exSp2).2
+#guard ((runAllTo { fs := exFs0, reg := [] } exSp1).1.fs.lookup ["w".toList, "out".toList, "deep".toList, "shared.ts".toList])
+  == ((runAllTo { fs := exFs0, reg := [] } exSp2).1.fs.lookup ["w".toList, "out".toList, "deep".toList, "shared.ts".toList])
 
 /-- before the fix `export()` keyed the registry by the un-normalised path: as `PathBuf`s the two
 spellings of one file are different keys -/
